@@ -722,8 +722,12 @@ class DBusObjectHandler :
         """
         d = {}
 
+        # only objects strictly beneath objectPath: '/a/bc' is not a child of
+        # '/a/b'
+        prefix = objectPath if objectPath.endswith('/') else objectPath + '/'
+
         for p in sorted(self.exports.keys()):
-            if not p.startswith(objectPath) or p == objectPath:
+            if not p.startswith(prefix) or p == objectPath:
                 continue
             o = self.exports[p]
             i = {}
